@@ -239,12 +239,19 @@ func runC10(res *vh.Result) {
 				nr, nu := mkURR(u)
 				nr.Trig, nr.Period = 0, 0
 				nu.Perio = false
+				// an Update URR carries only what changes: either IE may be absent and then keeps its value
+				nr.NoMethod, nr.NoInfo = rng.Chance(1, 3), rng.Chance(1, 3)
 				op.URRs = []uint32{u}
 				op.Rule = &nr
 				ops = append(ops, op)
 				modify(nr.UpdateIE())
 				if old := s.urr[u]; old != nil {
-					old.Method, old.MNOP = nu.Method, nu.MNOP
+					if !nr.NoMethod {
+						old.Method = nu.Method
+					}
+					if !nr.NoInfo {
+						old.MNOP = nu.MNOP
+					}
 				}
 			case r < 11:
 				op.K = "rmpdr"
